@@ -673,7 +673,7 @@ fn check_history(rep: &mut Report, cx: &mut Ctx, r: &mut Rng, fe: &str, steps: &
             if prev_text.as_deref() == Some(text) { ",same_text" } else if n == 0 { ",first" } else { ",text_changed" }
         ));
         let legit: Vec<Value> = ref_lints.iter().map(|l| serde_json::to_value(l).unwrap()).collect();
-        let mut run_diag = |rep: &mut Report, st: &mut DocumentState, tag: &str| -> bool {
+        let run_diag = |rep: &mut Report, st: &mut DocumentState, tag: &str| -> bool {
             let Ok(diags) = guarded(|| st.generate_diagnostics(DiagnosticSeverity::Hint)) else {
                 rep.count("history:lint panicked(C01's business)");
                 return false;
